@@ -1127,10 +1127,11 @@ impl MachineState {
                     }
                 }
                 Ok(Number::Integer(n)) => {
-                    let n: u32 = (&*n).try_into().unwrap();
-                    if let Some(c) = std::char::from_u32(n) {
-                        string.push(c);
-                        continue;
+                    if let Ok(n) = u32::try_from(&*n) {
+                        if let Some(c) = std::char::from_u32(n) {
+                            string.push(c);
+                            continue;
+                        }
                     }
                 }
                 _ => {
@@ -2767,9 +2768,11 @@ impl Machine {
             _ => {
                 match Number::try_from((a2, &self.machine_st.arena.f64_tbl)) {
                     Ok(Number::Integer(n)) => {
-                        let n: u32 = (&*n).try_into().unwrap();
+                        let n = u32::try_from(&*n)
+                            .ok()
+                            .and_then(|n| std::char::from_u32(n).map(|_| n));
 
-                        if std::char::from_u32(n).is_some() {
+                        if let Some(n) = n {
                             fixnum_as_cell!(Fixnum::build_with(n))
                         } else {
                             let err = self.machine_st.representation_error(RepFlag::InCharacterCode);
@@ -2948,8 +2951,7 @@ impl Machine {
             _ => {
                 match Number::try_from((a2, &self.machine_st.arena.f64_tbl)) {
                     Ok(Number::Integer(n)) => {
-                        let n: u32 = (&*n).try_into().unwrap();
-                        let n = std::char::from_u32(n);
+                        let n = u32::try_from(&*n).ok().and_then(std::char::from_u32);
                         let c = match n {
                             Some(c) => c,
                             _ => {
@@ -3186,9 +3188,8 @@ impl Machine {
         } else {
             match Number::try_from((addr, &self.machine_st.arena.f64_tbl)) {
                 Ok(Number::Integer(n)) => {
-                    let n: u32 = (&*n).try_into().unwrap();
-                    let n = char::try_from(n);
-                    if let Ok(c) = n {
+                    let n = u32::try_from(&*n).ok().and_then(char::from_u32);
+                    if let Some(c) = n {
                         write!(&mut stream, "{c}").unwrap();
                         return Ok(());
                     }
@@ -3333,18 +3334,18 @@ impl Machine {
         } else {
             match Number::try_from((addr, &self.machine_st.arena.f64_tbl)) {
                 Ok(Number::Integer(n)) => {
-                    let n: u8 = (&*n).try_into().unwrap();
+                    if let Ok(n) = u8::try_from(&*n) {
+                        match stream.write(&[n]) {
+                            Ok(1) => {
+                                return Ok(());
+                            }
+                            _ => {
+                                let err = self
+                                    .machine_st
+                                    .existence_error(ExistenceError::Stream(stream.into()));
 
-                    match stream.write(&[n]) {
-                        Ok(1) => {
-                            return Ok(());
-                        }
-                        _ => {
-                            let err = self
-                                .machine_st
-                                .existence_error(ExistenceError::Stream(stream.into()));
-
-                            return Err(self.machine_st.error_form(err, stub_gen()));
+                                return Err(self.machine_st.error_form(err, stub_gen()));
+                            }
                         }
                     }
                 }
@@ -3677,8 +3678,7 @@ impl Machine {
         } else {
             match Number::try_from((addr, &self.machine_st.arena.f64_tbl)) {
                 Ok(Number::Integer(n)) => {
-                    let n: u32 = (&*n).try_into().unwrap();
-                    let n = std::char::from_u32(n);
+                    let n = u32::try_from(&*n).ok().and_then(std::char::from_u32);
 
                     if let Some(n) = n {
                         fixnum_as_cell!(Fixnum::build_with(u32::from(n)))
